@@ -97,9 +97,23 @@ _add(Family(
     note="decodable items placed inside undecoded contexts that start at an offset > 0",
 ))
 
+_ALL_BYTES = [bytes([v]).decode("latin-1") for v in range(256)]
+_SWEEP_WRAPS = [
+    (b"", b""), (b"cmd /c echo ", b" done"), (b"x c^m^d /c ", b"^"), (b"powershell -e ", b"QQBCAEMA"), (b"'powershell -c ", b"'"),
+    (b"http://a.com/", b"/x?y#z"), (b"http://", b"a.com/"), (b"see ftp://u:p@1.2.3.4:21/%", b"1 now"), (b"bob", b"@example.org"), (b"\\\\a.com\\abc", b"\\x.exe"),
+    (b"/usr/lib", b"/abc.def"), (b'"a', b'" + "b"'), (b"reverse('", b"cba')"), (b'"x".replace("', b'", "y")'), (b"unescape('%4", b"1')"),
+    (b"&#65;&#66;&#67;&#68;&#6", b";&#70;"), (b"chr(6", b")"), (b"atob(\"QUJD", b"RA==\")"), (b"aHR0cDovL2V4YW1wbGUuY29t", b"L2EuZXhlIDguOC40LjQ="),
+    (b"687474703a2f2f6578616d706c", b"652e636f6d2f61"), (b"h\x00t\x00t\x00p\x00:\x00/\x00/\x00", b"\x00a\x00.\x00c\x00o\x00m\x00"),
+    (b"CreateObject(", b")"), (b"strlen", b"StrLen"), (b"FromBase64String('R1ZASA==') -bxor ", b"5"), (b"MZ", b"PE\x00\x00"),
+]
+_add(Family("bytes1", _ALL_BYTES, {"quick": 1, "thorough": 1}, wraps=_SWEEP_WRAPS,
+            note="every byte value 0..255 at one position of 25 decoder-specific templates"))
+_add(Family("bytes2", _ALL_BYTES, {"quick": 1, "thorough": 2}, wraps=_SWEEP_WRAPS[:1] + _SWEEP_WRAPS[5:6] + _SWEEP_WRAPS[11:12] + _SWEEP_WRAPS[14:16],
+            note="every pair of byte values at one position of 5 templates (thorough)"))
+
 STREAM_FAMILIES = {
-    "quick": ["shell", "pwsh", "net", "concat", "kw", "mix", "xml", "b64hex", "esc", "winpath", "ctx"],
-    "thorough": ["shell", "pwsh", "net", "concat", "kw", "mix", "xml", "b64hex", "esc", "winpath", "ctx"],
+    "quick": ["shell", "pwsh", "net", "concat", "kw", "mix", "xml", "b64hex", "esc", "winpath", "ctx", "bytes1"],
+    "thorough": ["shell", "pwsh", "net", "concat", "kw", "mix", "xml", "b64hex", "esc", "winpath", "ctx", "bytes1", "bytes2"],
 }
 
 
